@@ -77,7 +77,7 @@ def targets():
 
     def comp(A, v, mag):
         c = F(A).Complementary(gyr=_two_rows(H, G), acc=_two_rows(AC, None), mag=_two_rows(N0, M) if mag else None,
-                               w0=v.vec(*W0))
+                               w0=v.vec(*W0), Dt=0.02)       # Dt given, frequency left at its default
         return [c.W[1], c.Q[1]]
 
     def fkf(A, v, acc1, mag1):
@@ -136,7 +136,7 @@ def targets():
 
 
 
-STAGES = [['C13_lib.v'], ['C13_mm.v', 'C13_rest.v', 'C13_drv.v'], ['C13.v']]
+STAGES = [['C13_lib.v'], ['C13_mm.v', 'C13_mah.v', 'C13_rest.v', 'C13_drv.v', 'C13_comp.v'], ['C13.v']]
 COQ_TIMEOUT = 240
 
 
@@ -171,7 +171,7 @@ def _impl_table():
 
     def comp(c, mag):
         o = F.Complementary(gyr=np.array([_v(c, H), _v(c, G)]), acc=np.array([_v(c, AC), z()]),
-                            mag=np.array([_v(c, N0), _v(c, M)]) if mag else None, w0=_v(c, W0))
+                            mag=np.array([_v(c, N0), _v(c, M)]) if mag else None, w0=_v(c, W0), Dt=0.02)
         return [o.W[1], o.Q[1]]
 
     def fkf(c, acc1, mag1):
@@ -233,6 +233,7 @@ def _case(rng, names, i):
 def correspondence(ctx):
     I = _impl_table()
     n = ctx.n(24, 240)
+    jobs = []
     for t in targets():
         name = t.name[len('C13_'):]
         tt = ctx.targets.get(t.name)
@@ -241,7 +242,11 @@ def correspondence(ctx):
             continue
         cases = [_case(ctx.rng, tt.inputs, i) for i in range(n)]
         heavy = name.startswith(('fkf_a0', 'fkf_m0', 'comp_'))
-        ctx.correspond(t.name, cases[: max(8, n // 3)] if heavy else cases, I[name], tol_ulp=512 if heavy else 64)
+        jobs.append((t.name, cases[: max(8, n // 3)] if heavy else cases, I[name], 512 if heavy else 64))
+    # one coqc process per target; the cases were drawn above in a fixed order, so running them concurrently is deterministic
+    from concurrent.futures import ThreadPoolExecutor
+    with ThreadPoolExecutor(max_workers=6) as ex:
+        list(ex.map(lambda j: ctx.correspond(j[0], j[1], j[2], tol_ulp=j[3]), jobs))
     # twin targets: on every Val leaf of the regenerated tree the two halves are the SAME DAG nodes
     # (updateMARG with a null magnetometer returns what updateIMU returns); structural, checked on every run
     from pysym.sym import Leaf, Node
@@ -285,11 +290,11 @@ MREF = {'NED': np.array([22.0, 1.5, 41.0]), 'ENU': np.array([1.5, 22.0, -41.0])}
 GREF = {'NED': np.array([0.0, 0.0, 9.81]), 'ENU': np.array([0.0, 0.0, -9.81])}
 
 
-def _history(seed, N, amp, bias=(0.0, 0.0, 0.0), frame='NED'):
+def _history(seed, N, amp, bias=(0.0, 0.0, 0.0), frame='NED', dt=0.01):
     """a smooth rotation history with a true heading far from zero (about 1.2-2 rad), consistent gyr / acc / mag in the
     given frame, and a constant gyroscope bias"""
     rng = np.random.default_rng(seed)
-    t = np.arange(N) * DT0
+    t = np.arange(N) * dt
     ax = cm.unit(rng.standard_normal(3))
     ang = amp * np.sin(2 * np.pi * 0.4 * t) + 0.3 * amp * np.sin(2 * np.pi * 1.1 * t + 1.0)      # rates up to ~5 rad/s at amp 1.5
     q0 = cm.qmul(cm.axang_q([0, 0, 1], 1.2 + 0.4 * seed), cm.axang_q(rng.standard_normal(3), 0.4))
@@ -299,7 +304,7 @@ def _history(seed, N, amp, bias=(0.0, 0.0, 0.0), frame='NED'):
     gyr = np.zeros((N, 3))
     for i in range(1, N):
         d = cm.qmul(cm.qconj(qs[i - 1]), qs[i])
-        gyr[i] = 2 * d[1:] / DT0 / max(d[0], 1e-9)
+        gyr[i] = 2 * d[1:] / dt / max(d[0], 1e-9)
     gyr[1:] += np.asarray(bias, float)
     return gyr, acc, mag, qs
 
@@ -347,6 +352,40 @@ VARIANTS = {
     'Complementary/MARG/gain=0.98': ('Complementary', True, {'gain': 0.98}, 'ang', 'NED'),
     'Complementary/MARG/gain=0.5': ('Complementary', True, {'gain': 0.5}, 'ang', 'NED'),
 }
+
+# the sampling step configured as `Dt=` only and as `frequency=` only (non-default), for every filter
+def _step_variants():
+    base = {'Madgwick': ('dr', {}), 'Mahony': ('dr', {}), 'AQUA': ('drL', {}), 'Fourati': ('refuse', {}),
+            'ROLEQ': ('dr', {'magnetic_ref': MREF['NED']}), 'EKF': ('hold', {'magnetic_ref': MREF['NED']}),
+            'UKF': ('hold', {}), 'FKF': ('dr', {}), 'Complementary': ('ang', {'gain': 0.95})}
+    plan = {'Madgwick': [(True, {'Dt': 0.02}), (False, {'frequency': 200.0})],
+            'Mahony': [(True, {'frequency': 25.0}), (False, {'Dt': 0.004})],
+            'AQUA': [(True, {'Dt': 0.02}), (False, {'frequency': 200.0})],
+            'Fourati': [(True, {'Dt': 0.02})],
+            'ROLEQ': [(True, {'Dt': 0.004}), (True, {'frequency': 25.0})],
+            'EKF': [(False, {'Dt': 0.02}), (True, {'frequency': 200.0})],
+            'UKF': [(False, {'Dt': 0.02}), (False, {'frequency': 200.0})],
+            'FKF': [(True, {'Dt': 0.02}), (True, {'frequency': 200.0})],
+            'Complementary': [(False, {'Dt': 0.02}), (True, {'Dt': 0.004}), (True, {'frequency': 25.0}), (False, {'frequency': 200.0})]}
+    out = {}
+    for cls, lst in plan.items():
+        kind, kw0 = base[cls]
+        for uses_mag, stepkw in lst:
+            if cls == 'EKF' and not uses_mag:
+                kw0 = {}
+            k, v = next(iter(stepkw.items()))
+            out[f"{cls}/{'MARG' if uses_mag else 'IMU'}/{k}={v:g}"] = (cls, uses_mag, {**kw0, **stepkw}, kind, 'NED')
+    return out
+
+
+STEP_VARIANTS = _step_variants()
+VARIANTS.update(STEP_VARIANTS)
+
+
+def _step(kw):
+    """the sampling step a configuration asks for"""
+    return float(kw['Dt']) if 'Dt' in kw else 1.0 / float(kw.get('frequency', 100.0))
+
 # the declared carried state and the sensor data themselves; every other attribute is configuration
 CARRIED = {'Q', 'q', 'b', 'P', 'Pk', 'alpha', 'W', 'gyr', 'acc', 'mag', 'q0', 'w0',
            'R'}     # EKF rebuilds R from `noises` at every corrected update (derived, not configuration)
@@ -428,7 +467,8 @@ def o_dropout(inp):
     from vlib.core import call_outcome
     name = inp['filter']
     cls, uses_mag, kw, kind, frame = VARIANTS[name]
-    gyr, acc, mag, qs = _history(inp['seed'], inp['N'], inp['amp'], inp.get('bias', (0, 0, 0)), frame)
+    DT = _step(kw)                                    # the step this configuration asks for: data and closed forms use it
+    gyr, acc, mag, qs = _history(inp['seed'], inp['N'], inp['amp'], inp.get('bias', (0, 0, 0)), frame, DT)
     acc = acc * _gsign(cls)
     form = inp.get('form', 'f64')
     ref = call_outcome(_build, name, _as(gyr, form), _as(acc, form), _as(mag, form), qs[0])
@@ -478,14 +518,14 @@ def o_dropout(inp):
             continue
         if kind == 'ang':
             ncomp = 3 if uses_mag else 2
-            exp = Wd[t - 1, :ncomp] + g2[t, :ncomp] * DT0
+            exp = Wd[t - 1, :ncomp] + g2[t, :ncomp] * DT
             if cm.maxabs(Wd[t, :ncomp], exp) > 1e-12:
                 return {'tag': f'{name}/{sensors}/not-dead-reckoned', 'observed': Wd[t], 'expected': exp, 'note': f'angles at row {t}'}
             continue
         if kind == 'hold' or (zg[t] and cls in ('Madgwick', 'Mahony', 'AQUA')):
             exp = Qd[t - 1]
         else:
-            exp = _dr(Qd[t - 1], g2[t], DT0, left=(kind == 'drL'))
+            exp = _dr(Qd[t - 1], g2[t], DT, left=(kind == 'drL'))
         if _qdist(Qd[t], exp) > 1e-12:
             return {'tag': f'{name}/{sensors}/not-dead-reckoned', 'observed': Qd[t], 'expected': exp, 'note': f'row {t}'}
     # (a2) right after the outage (and from then on): the deviation from the clean run is what gyro drift over the outage
@@ -499,10 +539,10 @@ def o_dropout(inp):
         # what the clean run's own corrections over the outage amount to (large only while the filter is still converging)
         missed = 0.0
         for t in range(max(s0, 1), min(last, N)):
-            pr = Qref[t - 1] if kind == 'hold' else _dr(Qref[t - 1], gyr[t], DT0, left=(kind == 'drL'))
+            pr = Qref[t - 1] if kind == 'hold' else _dr(Qref[t - 1], gyr[t], DT, left=(kind == 'drL'))
             missed += _qangle(Qref[t], pr)
         rate = (gmax if kind == 'hold' else bias) + 0.2
-        bound = 0.02 + L * DT0 * rate + 1.5 * missed
+        bound = 0.02 + L * DT * rate + 1.5 * missed
         for i in range(last, N):
             e = _qangle(Qd[i], Qref[i])
             if e > bound:
@@ -616,6 +656,8 @@ def search(ctx, scale):
         for ci, combo in enumerate(combos):
             if 'mag' in combo and not uses_mag:
                 continue
+            if fn in STEP_VARIANTS and scale == 1:
+                continue                  # quick tier: the step variants run the fixed outages below
             reps = 1 if scale == 1 else 4
             for j in range(reps):
                 N, start, length = pats[(fi * 7 + ci * 3 + j * 5 + k) % len(pats)]
@@ -635,6 +677,8 @@ def search(ctx, scale):
             ctx.check('dropout', inp, _call(o_dropout, inp, fn), nontrivial_key=(fn, 'fixed-mag'))
     # short records (N in 2..7) with a dropout at the last row
     for fn in VARIANTS:
+        if fn in STEP_VARIANTS and scale == 1:
+            continue
         for N in ((2, 3, 4, 5, 7) if scale > 1 else (2, 4)):
             inp = {'filter': fn, 'seed': 2, 'N': N, 'amp': 0.5, 'drops': [['acc', N - 1, 1]], 'form': 'f64'}
             ctx.check('dropout', inp, _call(o_dropout, inp, fn), nontrivial_key=(fn, 'short', N))
